@@ -593,6 +593,7 @@ class Encoder:
         n = z_or(z_not(found), v.none if v.none is not None else False)
         res = SV(v.kind, v.z, z3.simplify(z_bool(n)))
         res.lookup = (table, resultcol, tuple(names), tuple(args), found)
+        res.lookup_keys = list(vals)
         return res
 
     def _refers_inner(self, col: P.Col, fi, table):
